@@ -24,9 +24,11 @@ def run(out, tier):
     #     outside the shape of known finding F17, and the model exhibits F17 itself
     LS = SPEC / "LayerStack"
     rh = vlib.require_ok(vlib.tlc(LS, "HintCombine", cfg="HintCombine", workers=4, timeout=900), "HintCombine: UnsoundOnlyF17, SoundOutsideF17")
-    out.add_tlc(rh, "HintCombine exhaustive: every stack of <= 3 elements (leaf with hint NoHint/OFF/ERROR/INFO/TRACE, absent leaf, and_then of two leaves): "
-                    "an unsound published hint occurs only in the shape of finding F17")
+    out.add_tlc(rh, "HintCombine exhaustive: every stack of <= 3 elements (leaf with hint NoHint/OFF/ERROR/INFO/TRACE, absent leaf, and_then of two leaves, "
+                    "Vec of <= 2 leaves): an unsound published hint occurs only in the shapes of findings F17 / F28")
     out.extra["f17_counterexample_in_model"] = (vlib.tlc(LS, "HintCombine", cfg="HintCombineF17", workers=2, timeout=300).kind == "invariant")
+    # a candidate repair (a composite answers the none-marker query only if ALL its members are absent) is sound for every such stack
+    out.extra["all_members_rule_sound_in_model"] = vlib.tlc(LS, "HintCombine", cfg="HintCombineFixed", workers=4, timeout=900).ok
     exprs = vlib.read_ndjson(cases)
     # 2. the REAL filters: what they publish vs what they decide, observed through a Spy on a real stack
     bins = vlib.cargo_build(["filters"])
@@ -56,12 +58,16 @@ def run(out, tier):
     slines, sfound, sres = lc.execute(behs, "c08s", "c07")
     seen = set()
     f17 = [f for f in vlib.known_findings("C08") if f["id"] == "F17"]
+    f28 = [f for f in vlib.known_findings("C08") if f["id"] == "F28"]
     for b, pos, rec in sfound["BAD8"]:
         if b in seen:
             continue
         seen.add(b)
         if f17 and c07.has_and_then(behs[b]["stack"]):
             out.known_finding("F17", f17[0]["what"])
+            continue
+        if f28 and c07.has_vec_none(behs[b]["stack"]):
+            out.known_finding("F28", f28[0]["what"])
             continue
         out.violation("stack %d: the composed collector's summary (register_callsite / max_level_hint) is below what its layers accept: hint=%s stack=%s"
                       % (b, rec["summary"]["hint"], json.dumps(behs[b]["stack"])[:600]), {"behaviour": behs[b], "summary": rec["summary"]})
